@@ -339,9 +339,16 @@ func c04(env *core.Env, kind string, faulty bool) {
 		env.Logf("write [%d,%d) -> %d %v", pos, end, n, err)
 		if err != nil {
 			failedHere("Write", err)
-			if got := r.w.Size(); got != pos {
-				env.Failf("C04/Size/counts-failed-write", "Write of [%d,%d) failed (%v) but the writer now reports Size()=%d; %d bytes had been written successfully", pos, end, err, got, pos)
+			// (a Write that fails says how much of its argument it took before failing -
+			// nothing, as a rule; the writer's size is what was taken, no more)
+			if n < 0 || n > len(chunk) {
+				env.Failf("C04/Write/count", "failed Write of %d bytes returned %d", len(chunk), n)
 			}
+			if got := r.w.Size(); got != pos+int64(n) {
+				env.Failf("C04/Size/counts-failed-write", "Write of [%d,%d) failed (%v) having taken %d bytes, but the writer now reports Size()=%d; %d bytes had been written successfully before it", pos, end, err, n, got, pos)
+			}
+			chunk = chunk[n:]
+			pos += int64(n)
 			if !r.direct && !r.badWriter && !r.memberFault && c.Bool("retry-same-writer", 1, 2) {
 				// the caller tries the same Write again on the same writer: it either goes
 				// through (the first attempt never reached the registry) or fails again
